@@ -75,15 +75,18 @@ func commonClass(c Case, p *prepared) string {
 		// a backslash directly followed by a carriage return: `\`+CR is kept as an escaped CR
 		// by the lexer, but printed before a newline it becomes a `\`+CR+LF line continuation
 		return "escaped_carriage_return"
-	case containsHdoc(p.f) && (c.Opt.Single || c.Opt.Minify || containsSubst(p.f) || treeHas(p.f, func(x any) bool {
-		// ... or the right-hand side of a pipeline/list whose left side holds the heredoc
-		b, ok := x.(*syntax.BinaryCmd)
-		return ok && containsHdoc(b.X)
-	})):
-		// pending heredoc bodies are written at the next newline the printer happens to emit,
-		// which with SingleLine/Minify or a command substitution later on the line may be
-		// inside a nested construct
+	case containsHdoc(p.f) && (c.Opt.Single || c.Opt.Minify || hdocThenMultiline(p.f)):
+		// pending heredoc bodies are written at the next newline the printer happens to emit. With
+		// SingleLine/Minify (which suppress the statement's own newline), or when the heredoc operator
+		// is followed ON ITS LINE by a command/process substitution or subshell, or by another construct
+		// that contains a newline or a comment (block, compound command, multi-line quoted string), or by a pipeline
+		// or list operator whose right-hand side starts on a later line, that newline lies inside the
+		// nested construct and the body lands in the wrong place
 		return "heredoc_body_placement"
+	case dashHdocNestedConstruct(p.f):
+		// a <<- body is re-indented line by line, including the lines of a command substitution
+		// (and of any here-document nested in it) that the body contains
+		return "dash_heredoc_nested_construct"
 	case treeHas(p.f, func(x any) bool {
 		r, ok := x.(*syntax.Redirect)
 		if !ok || r.Op != syntax.DashHdoc || r.Hdoc == nil {
@@ -139,6 +142,125 @@ func commonClass(c Case, p *prepared) string {
 		return "dollar_before_escaped_newline"
 	}
 	return ""
+}
+
+type posNode interface {
+	Pos() syntax.Pos
+	End() syntax.Pos
+}
+
+// hdocThenMultiline: see heredoc_body_placement
+func hdocThenMultiline(f any) bool {
+	var ops []syntax.Pos
+	Visit(f, func(x any) {
+		if r, ok := x.(*syntax.Redirect); ok && isHdoc(r) {
+			ops = append(ops, r.OpPos)
+		}
+	})
+	if len(ops) == 0 {
+		return false
+	}
+	found := false
+	Visit(f, func(x any) {
+		if found {
+			return
+		}
+		switch n := x.(type) {
+		case *syntax.CmdSubst, *syntax.ProcSubst, *syntax.Subshell, *syntax.Block, *syntax.IfClause, *syntax.WhileClause,
+			*syntax.ForClause, *syntax.CaseClause, *syntax.FuncDecl, *syntax.DblQuoted, *syntax.SglQuoted, *syntax.ArithmCmd,
+			*syntax.ArithmExp, *syntax.TestClause, *syntax.ParamExp, *syntax.ArrayExpr:
+			pn := n.(posNode)
+			nested := false // constructs holding statements: their newlines depend on the layout chosen
+			switch n.(type) {
+			case *syntax.CmdSubst, *syntax.ProcSubst, *syntax.Subshell:
+				nested = true
+			}
+			for _, op := range ops {
+				if pn.Pos().Line() == op.Line() && pn.Pos().After(op) &&
+					(nested || pn.End().Line() > pn.Pos().Line() || hasComments(n)) {
+					found = true
+				}
+			}
+		case *syntax.BinaryCmd:
+			if containsHdoc(n.X) && n.Y != nil && n.Y.Pos().Line() > n.OpPos.Line() {
+				found = true
+			}
+		case *syntax.Comment:
+			// a comment on the operator line itself, followed by more of the same statement
+			_ = n
+		}
+	})
+	return found
+}
+
+func dashHdocNestedConstruct(f any) bool {
+	return treeHas(f, func(x any) bool {
+		r, ok := x.(*syntax.Redirect)
+		if !ok || r.Op != syntax.DashHdoc || r.Hdoc == nil {
+			return false
+		}
+		return treeHas(r.Hdoc, func(y any) bool {
+			switch n := y.(type) {
+			case *syntax.CmdSubst:
+				return n.End().Line() > n.Pos().Line() || containsHdoc(n)
+			case *syntax.ProcSubst:
+				return n.End().Line() > n.Pos().Line() || containsHdoc(n)
+			}
+			return false
+		})
+	})
+}
+
+// a backquoted command substitution whose closing backquote shares the line with the
+// delimiter of a here-document opened inside it (only possible with backquotes)
+func backquoteHdocSameLine(f any) bool {
+	return treeHas(f, func(x any) bool {
+		cs, ok := x.(*syntax.CmdSubst)
+		if !ok || !cs.Backquotes {
+			return false
+		}
+		return treeHas(cs.Stmts, func(y any) bool {
+			r, ok := y.(*syntax.Redirect)
+			return ok && isHdoc(r) && r.Hdoc != nil && r.Hdoc.End().Line() >= cs.Right.Line()
+		})
+	})
+}
+
+// a comment that sits between the header of a compound command and its then/do keyword,
+// or inside a command/process substitution or subshell (where it forces the closing
+// parenthesis onto the next line)
+func commentBeforeKeywordOrParen(f any) bool {
+	var coms []*syntax.Comment
+	Visit(f, func(x any) {
+		if c, ok := x.(*syntax.Comment); ok {
+			coms = append(coms, c)
+		}
+	})
+	between := func(a, b syntax.Pos) bool {
+		for _, c := range coms {
+			if c.Hash.After(a) && b.After(c.Hash) {
+				return true
+			}
+		}
+		return false
+	}
+	return treeHas(f, func(x any) bool {
+		switch n := x.(type) {
+		case *syntax.IfClause:
+			return n.ThenPos.IsValid() && between(n.Position, n.ThenPos)
+		case *syntax.WhileClause:
+			return between(n.WhilePos, n.DoPos)
+		case *syntax.ForClause:
+			return between(n.ForPos, n.DoPos)
+		case *syntax.CmdSubst:
+			return hasComments(n)
+		case *syntax.ProcSubst:
+			return hasComments(n)
+		case *syntax.Subshell:
+			return hasComments(n)
+		}
+		return false
+	})
 }
 
 func classC01(c Case, p *prepared, f Failure) string {
@@ -349,15 +471,25 @@ func classC02(c Case, p *prepared, out1, out2 string, sameTree bool) string {
 		// SingleLine drops the escaped newline inside double quotes; only then can Simplify
 		// turn the string into single quotes, on the second pass
 		return "singleline_simplify_dblquoted_escaped_newline"
+	case backquoteHdocSameLine(p.f) && sameTree:
+		// the first pass moves the closing parenthesis to its own line, after which the statement
+		// list no longer ends on the closing line and the second pass breaks after `$(` as well
+		return "backquote_heredoc_close_same_line"
 	case !sameTree:
 		return ""
 	case hasNestedParens(p.f) && stripBytes(out1, " ") == stripBytes(out2, " "):
 		return "nested_paren_spacing_by_source_lines"
 	case hasCaseComments(p.f) && trimLines(out1) == trimLines(out2):
 		return "case_comment_indentation"
-	case hasComments(p.f):
-		// a comment forces a newline where the first pass would otherwise join lines; the
-		// second pass sees the comment at its new position and lays the construct out differently
+	case c.Opt.Minify && stripBytes(out1, "; \n") == stripBytes(out2, "; \n"):
+		// Minify (which drops comments) chooses between ';' and newline from source lines
+		return "minify_separator_by_source_lines"
+	case !c.Opt.Minify && hasComments(p.f) && (c.Opt.Single || commentBeforeKeywordOrParen(p.f)):
+		// a pending comment forces a newline where the first pass would otherwise join lines:
+		// under SingleLine anywhere; otherwise when the comment sits between a compound command's
+		// header and its then/do, or inside a command substitution/subshell before the closing
+		// parenthesis. The second pass sees the comment at its new position and lays the
+		// construct out differently (same tree, same comments)
 		return "comment_layout_not_fixpoint"
 	case hasLateTerminator(p.f):
 		return "escaped_newline_before_terminator"
@@ -367,9 +499,6 @@ func classC02(c Case, p *prepared, out1, out2 string, sameTree bool) string {
 	}):
 		// an unquoted literal split by an escaped newline: its end line misleads the layout
 		return "escaped_newline_inside_literal"
-	case c.Opt.Minify && stripBytes(out1, ";\n") == stripBytes(out2, ";\n"):
-		// Minify chooses between ';' and newline from source lines
-		return "minify_separator_by_source_lines"
 	}
 	return ""
 }
@@ -395,5 +524,53 @@ func classC05(c Case, p *prepared, got []string) string {
 		// `coproc foo #c`: the parser's lookahead for the optional coproc name drops the comment
 		return "coproc_trailing_comment"
 	}
+	if midCommentAfterNestedComment(p.f) && samePermutation(p.coms, got) {
+		// the comments between a statement's start and the end of its command are queued
+		// before the statement is printed, so they come out at the first newline inside it,
+		// ahead of comments of nested constructs that precede them in the source
+		return "mid_statement_comment_overtakes_nested_comment"
+	}
 	return ""
+}
+
+func samePermutation(a, b []string) bool {
+	if len(a) != len(b) {
+		return false
+	}
+	m := map[string]int{}
+	for _, x := range a {
+		m[x]++
+	}
+	for _, x := range b {
+		m[x]--
+	}
+	for _, v := range m {
+		if v != 0 {
+			return false
+		}
+	}
+	return true
+}
+
+func midCommentAfterNestedComment(f any) bool {
+	return treeHas(f, func(x any) bool {
+		st, ok := x.(*syntax.Stmt)
+		if !ok || st.Cmd == nil {
+			return false
+		}
+		for i := range st.Comments {
+			m := &st.Comments[i]
+			if !m.Pos().After(st.Pos()) || m.End().After(st.Cmd.End()) {
+				continue
+			}
+			// a comment nested inside the command that precedes m in the source
+			if treeHas(st.Cmd, func(y any) bool {
+				k, ok := y.(*syntax.Comment)
+				return ok && k != m && m.Hash.After(k.Hash)
+			}) {
+				return true
+			}
+		}
+		return false
+	})
 }
